@@ -258,7 +258,9 @@ func vpH_C17_assoc() {
 // C18: DocsMatchingTerms == union of the listed terms' documents.
 func vpH_C18_match() {
 	g := vpNewGen(0)
+	// (document 2 also carries a stored-only field "s": known to the segment, no term)
 	docs := []*vpDoc{g.doc(2, 0), g.doc(9, 1), g.doc(5, 2)}
+	docs[2].fields = append(docs[2].fields, &vpField{name: "s", store: true, value: g.bytes("val", 1)})
 	seg := vpBuild(docs, 1025)
 	held := docs
 	switch vpChoice("kind", 4) {
@@ -277,7 +279,7 @@ func vpH_C18_match() {
 		held = append(append([]*vpDoc(nil), docs...), docs...)
 	}
 	exp := vpBuildExpect(held, vpFieldNames(docs))
-	fieldsTab := []string{"a", "b", "_id", "nofield", ""}
+	fieldsTab := []string{"a", "b", "_id", "nofield", "", "s"}
 	termsTab := []string{"x", "", "d0", "absent"}
 	n := 1 + vpChoice("len", 3)
 	if n == 3 && !vpThorough() {
